@@ -37,6 +37,7 @@ type fnInfo struct {
 	needsFuel  bool
 	needsOrc   bool
 	needsNow   bool
+	needsMord  bool
 	outParams  []int // indices of the parameters written through (returned as extra results)
 	text       string
 	skipped    string
@@ -977,6 +978,9 @@ func (f *fctx) callFunc(fo *types.Func, recv ast.Expr, x *ast.CallExpr, n int) [
 	if ci.needsNow {
 		f.fn.needsNow = true
 	}
+	if ci.needsMord {
+		f.fn.needsMord = true
+	}
 	sig := fo.Type().(*types.Signature)
 	args := []string{ci.name}
 	if ci.needsFuel {
@@ -987,6 +991,9 @@ func (f *fctx) callFunc(fo *types.Func, recv ast.Expr, x *ast.CallExpr, n int) [
 	}
 	if ci.needsNow {
 		args = append(args, "now")
+	}
+	if ci.needsMord {
+		args = append(args, "mord")
 	}
 	var recvLHS ast.Expr
 	if sig.Recv() != nil {
@@ -1092,7 +1099,16 @@ func (f *fctx) setLHSw(lhs ast.Expr, val string, wt bool) string {
 		bt := f.typeOf(x.X)
 		switch bt.Underlying().(type) {
 		case *types.Map:
-			nv := "(aset " + f.expr(x.X) + " " + f.expr(x.Index) + " " + val + ")"
+			inner := f.expr(x.X)
+			if ix, ok := ast.Unparen(x.X).(*ast.IndexExpr); ok {
+				if _, om := f.typeOf(ix.X).Underlying().(*types.Map); om {
+					// m[a][b] = v: m[a] is a nil map when a is missing, and a store into a nil map panics
+					tn := f.fresh("t")
+					f.pre = append(f.pre, fmt.Sprintf("%s <- gmapget %s %s ;;\n", tn, f.expr(ix.X), f.expr(ix.Index)))
+					inner = tn
+				}
+			}
+			nv := "(aset " + inner + " " + f.expr(x.Index) + " " + val + ")"
 			pre := f.takePre()
 			return pre + f.setLHSw(x.X, nv, true)
 		case *types.Slice:
@@ -1689,6 +1705,9 @@ func (f *fctx) rangeStmt(s *ast.RangeStmt, rest []ast.Stmt, c *ctx) string {
 		fail("range with assignment to existing variables")
 	}
 	xt := f.typeOf(s.X)
+	if _, isMap := xt.Underlying().(*types.Map); isMap {
+		return f.rangeMap(s, rest, c)
+	}
 	sl, ok := xt.Underlying().(*types.Slice)
 	if !ok {
 		fail("range over %s", xt)
@@ -1714,6 +1733,41 @@ func (f *fctx) rangeStmt(s *ast.RangeStmt, rest []ast.Stmt, c *ctx) string {
 	}
 	hasRet := bodyReturns(s.Body)
 	out += lo + " <- grange " + rArg(hasRet) + "(fun " + kn + " " + vn + " " + st + " =>\n" + unpack(st, S) + elemConv + body + ") 0 " + xs + " " + tuple(S) + " ;;\n"
+	return out + f.loopTail(lo, st, S, rest, c, hasRet)
+}
+
+// rangeMap: for k, v := range m.  Go visits the entries in an unspecified order:
+// the translation visits [mord site m], a permutation of m chosen by the parameter mord,
+// over which every theorem quantifies.  A body that stores into the ranged map must end the loop.
+func (f *fctx) rangeMap(s *ast.RangeStmt, rest []ast.Stmt, c *ctx) string {
+	root := rootIdent(s.X)
+	if root != nil {
+		rv := f.varOf(root)
+		for _, o := range f.assignedOuter(s.Body.List) {
+			if o == rv && !alwaysAbrupt(s.Body.List) {
+				fail("the body of a range over a map stores into %s and continues", root.Name)
+			}
+		}
+	}
+	m := f.expr(s.X)
+	out := f.takePre()
+	f.t.orcSite++
+	f.fn.needsMord = true
+	kn, vn := "_", "_"
+	if id, ok := s.Key.(*ast.Ident); ok && id.Name != "_" {
+		kn = f.name(f.t.info.Defs[id])
+	}
+	if s.Value != nil {
+		if id, ok := s.Value.(*ast.Ident); ok && id.Name != "_" {
+			vn = f.name(f.t.info.Defs[id])
+		}
+	}
+	S := f.namesOf(f.assignedOuter(s.Body.List))
+	lo, st, kv := f.fresh("lo"), f.fresh("st"), f.fresh("kv")
+	body := f.seq(s.Body.List, f.loopCtx(S, c))
+	hasRet := bodyReturns(s.Body)
+	out += lo + " <- grange " + rArg(hasRet) + "(fun _ " + kv + " " + st + " =>\n" + unpack(st, S) +
+		"let '(" + kn + ", " + vn + ") := " + kv + " in\n" + body + fmt.Sprintf(") 0 (mord %d _ %s) ", f.t.orcSite, m) + tuple(S) + " ;;\n"
 	return out + f.loopTail(lo, st, S, rest, c, hasRet)
 }
 
@@ -1811,7 +1865,7 @@ func (t *tr) translate(fi *fnInfo) {
 			}
 		}
 		t.orcSite = site
-		fi.needsFuel, fi.needsOrc, fi.needsNow = false, false, false
+		fi.needsFuel, fi.needsOrc, fi.needsNow, fi.needsMord = false, false, false, false
 		var found2 map[*types.Var]bool
 		fi.text, found2 = t.emit(fi)
 		for v := range found2 {
@@ -1821,7 +1875,7 @@ func (t *tr) translate(fi *fnInfo) {
 		}
 	} else {
 		t.orcSite = site
-		fi.needsFuel, fi.needsOrc, fi.needsNow = false, false, false
+		fi.needsFuel, fi.needsOrc, fi.needsNow, fi.needsMord = false, false, false, false
 		fi.text, _ = t.emit(fi)
 	}
 	t.order = append(t.order, fi)
@@ -1902,6 +1956,9 @@ func (t *tr) emit(fi *fnInfo) (string, map[*types.Var]bool) {
 	}
 	body := f.seq(fi.decl.Body.List, c)
 	extra := ""
+	if fi.needsMord {
+		extra = "(mord : Z -> forall V : Type, list (bytes * V) -> list (bytes * V)) " + extra
+	}
 	if fi.needsNow {
 		extra = "(now : Z) " + extra
 	}
